@@ -33,6 +33,61 @@ theorem encodings_agree (m : Model) (softs : List Soft) (r₁ r₂ : Nat) (a₁ 
   have := b₂.2.2 a₁ b₁.1
   omega
 
+/-! ### the linear search (`maxsat/optimisation/linear_search.rs`) -/
+
+/-- What the search relies on: after `constrain_at_most_k k` the solver answers for
+"hard clauses ∧ cost ≤ k" (an error of the encoder counts as "no solution"). This is the contract of
+the upper-bound encoders; the encoders themselves are not modelled. -/
+structure BoundedSolve (α : Type) (hard : α → Bool) (cost : α → Nat) where
+  run : Nat → Option α
+  sound : ∀ k a, run k = some a → hard a = true ∧ cost a ≤ k
+  complete : ∀ k, run k = none → ∀ a, hard a = true → ¬ cost a ≤ k
+
+/-- the loop: stop when the incumbent costs exactly the constant term; otherwise demand
+`cost ≤ best - 1` and solve again -/
+def linearSearch {α : Type} {hard : α → Bool} {cost : α → Nat} (s : BoundedSolve α hard cost)
+    (const : Nat) : Nat → α → α
+  | 0, best => best
+  | fuel + 1, best =>
+    if cost best = const then best
+    else
+      match s.run (cost best - 1) with
+      | none => best
+      | some a => linearSearch s const fuel a
+
+/-- **Linear search returns an optimum**: provided the constant term is a lower bound on the cost of
+every assignment satisfying the hard clauses (it is the weight of the soft clauses already falsified
+at the root), the result satisfies the hard clauses and no such assignment is cheaper. -/
+theorem linear_search_optimal {α : Type} {hard : α → Bool} {cost : α → Nat}
+    (s : BoundedSolve α hard cost) (const : Nat) (hconst : ∀ a, hard a = true → const ≤ cost a)
+    (fuel : Nat) (best : α) (hb : hard best = true) (hf : cost best ≤ fuel) :
+    hard (linearSearch s const fuel best) = true ∧
+      ∀ a, hard a = true → cost (linearSearch s const fuel best) ≤ cost a := by
+  induction fuel generalizing best with
+  | zero =>
+    have h0 : cost best = 0 := by omega
+    simp only [linearSearch]
+    exact ⟨hb, fun a _ => by omega⟩
+  | succ fuel ih =>
+    simp only [linearSearch]
+    by_cases hc : cost best = const
+    · simp only [hc, if_true]
+      exact ⟨hb, fun a ha => by have := hconst a ha; omega⟩
+    · simp only [hc, if_false]
+      cases hr : s.run (cost best - 1) with
+      | none =>
+        dsimp only
+        refine ⟨hb, fun a ha => ?_⟩
+        have h2 : cost best - 1 < cost a := Nat.lt_of_not_le (s.complete _ hr a ha)
+        omega
+      | some a' =>
+        dsimp only
+        have hs := s.sound _ a' hr
+        have hpos : 0 < cost best := by
+          have := hconst best hb
+          omega
+        exact ih a' hs.1 (by omega)
+
 /-- the accounting defect that was repaired (`fix: MaxSAT upper-bound preprocessing …`): adding the
 weight of the root-true literals once per pass differs from adding it once -/
 example : (5 : Nat) + 5 ≠ 5 := by decide
